@@ -75,7 +75,8 @@ func freshBase(fa *ssa.FieldAddr) bool {
 }
 
 // ScanFieldModes checks, over every function of the loaded packages, the syntactic side of the
-// declared field modes: `writers` (stores only in the listed functions), `immutable` (no store
+// declared field modes: `writers` (stores only in the listed functions), `users` (loads and stores
+// only in the listed functions: the referent is not safe for concurrent use), `immutable` (no store
 // outside the allocating function), `atomic` (no plain load/store), `closeonly` (channel never
 // sent on). One structural obligation per (field, function) with an access.
 func (s *Session) ScanFieldModes(prop string) *FuncResult {
@@ -134,6 +135,14 @@ func (s *Session) ScanFieldModes(prop string) *FuncResult {
 								}
 							}
 							add(fmt.Sprintf("field-modes/writers[%s]@%s", f, fname), ok, i.Pos(), "store to "+f+" in "+fname+" ("+s.P.PosStr(i.Pos())+")", propsOf(m))
+						case "users":
+							ok := false
+							for _, w := range argsOf(m) {
+								if w == fname {
+									ok = true
+								}
+							}
+							add(fmt.Sprintf("field-modes/users[%s]@%s", f, fname), ok, i.Pos(), "store to "+f+" (object not safe for concurrent use, confined to the listed functions) in "+fname+" ("+s.P.PosStr(i.Pos())+")", propsOf(m))
 						case "immutable":
 							add(fmt.Sprintf("field-modes/immutable[%s]@%s", f, fname), false, i.Pos(), "store to immutable field "+f+" in "+fname+" ("+s.P.PosStr(i.Pos())+")", propsOf(m))
 						case "atomic":
@@ -151,6 +160,15 @@ func (s *Session) ScanFieldModes(prop string) *FuncResult {
 						}
 						if m.Mode == "atomic" {
 							add(fmt.Sprintf("field-modes/atomic[%s]@%s", f, fname), false, i.Pos(), "plain load of atomic field "+f+" in "+fname, propsOf(m))
+						}
+						if m.Mode == "users" {
+							ok := false
+							for _, w := range argsOf(m) {
+								if w == fname {
+									ok = true
+								}
+							}
+							add(fmt.Sprintf("field-modes/users[%s]@%s", f, fname), ok, i.Pos(), "use of "+f+" (object not safe for concurrent use, confined to the listed functions) in "+fname+" ("+s.P.PosStr(i.Pos())+")", propsOf(m))
 						}
 					}
 				case *ssa.Send:
@@ -178,7 +196,7 @@ func (s *Session) ScanFieldModes(prop string) *FuncResult {
 				continue
 			}
 			switch m.Mode {
-			case "writers", "immutable", "atomic", "closeonly":
+			case "writers", "immutable", "atomic", "closeonly", "users":
 				add(fmt.Sprintf("field-modes/%s[%s]/scan-complete", m.Mode, name), true, token.NoPos, fmt.Sprintf("%d functions scanned", len(s.P.AllFns)), propsOf(m))
 			}
 		}
